@@ -200,6 +200,70 @@ def job_for(nr_exp, nt_exp, d):
     return j
 
 
+# ---- RadialAnisotropicDivision: the refinement window (index computation + first read loop), plain CBMC on doubles --------------
+ANISO_PRELUDE = r"""
+#include <math.h>
+#define CAP @CAP@
+#define assert(c) __CPROVER_assert((c), "source assert: " #c)
+double nondet_double(void);
+static double r_temp2[CAP]; static int r_temp2_size; static _Bool g_thrown;
+#define ACHK(i) (__CPROVER_assert((i) >= 0, "OBL:refinement_window_starts_at_or_after_the_first_node(r_temp2 subscript >= 0)"), \
+                 __CPROVER_assert((i) < r_temp2_size, "OBL:refinement_window_ends_inside_the_uniform_division(r_temp2 subscript < size)"), (i))
+#define VRESIZE_R2(n) do { __CPROVER_assert((n) >= 0 && (n) <= CAP, "harness capacity"); r_temp2_size = (n); } while (0)
+static int v_ipow2(int k) { __CPROVER_assert(k >= 0 && k < 30, "OBL:pow(2, k): exponent is a small non-negative integer"); return 1 << k; }
+/* (int)(log2(x) + 1) for x >= 1: floor(log2(x)) + 1 (x is integer valued here); x < 1 makes the double -> int conversion undefined */
+static int v_ilog2_plus1(double x) { __CPROVER_assert(x >= 1.0, "OBL:log2_argument_is_at_least_one(double -> int conversion defined)"); __CPROVER_assume(x >= 1.0); int k = 0; while (k < 30 && (double)(1 << (k + 1)) <= x) k++; return k + 1; }
+static double SET_SINK;
+typedef double real_t;
+#define v_floor floor
+#define v_ceil ceil
+static int v_min(int a, int b) { return a < b ? a : b; }
+"""
+
+
+def aniso_job(nr_exp, aniso):
+    rules, hashes = Rules("gridgen"), {}
+    f = Src.get("src/PolarGrid/anisotropic_division.cpp").function("PolarGrid::RadialAnisotropicDivision",
+                                                                    must_params=["r_temp", "R0", "R", "nr_exp", "refinement_radius", "anisotropic_factor"])
+    hashes["PolarGrid::RadialAnisotropicDivision"] = sha(f["body"])
+    b = f["body"]
+    cut = b.find("double half = uniform_distance / 2.0;")
+    if cut < 0 or b.count("double half = uniform_distance / 2.0;") != 1:
+        raise ExtractError("RadialAnisotropicDivision: marker of the end of the window computation not found")
+    b = b[:cut]          # the std::set based refinement after this point is NOT decided
+    b = rules.sub("A.iterators", r"std::set<double,\s*std::greater<double>>::iterator\s+itr,\s*itr_p1;", "", b, expect=1)
+    b = rules.sub("A.sets", r"std::set<double>\s+(r_set|r_set_p1);", "", b, expect=2)
+    b = rules.sub("A.set_insert", r"r_set_p1\.insert\(r_temp2\[([^\]]+)\]\);", r"SET_SINK = r_temp2[ACHK(\1)];", b, expect=1)
+    b = rules.sub("A.vector_decl", r"std::vector<double>\s+r_temp2\s*=\s*std::vector<double>\(nr\);", "VRESIZE_R2(nr);", b, expect=1)
+    b = rules.sub("A.log2_int", r"int\s+new_aniso\s*=\s*log2\(([^;]+)\)\s*\+\s*1;", r"int new_aniso = v_ilog2_plus1(\1);", b, expect=1)
+    b = rules.sub("A.pow2_int", r"\bpow\(2,\s*(\w+)\)", r"v_ipow2(\1)", b, expect=4)
+    b = rules.sub("R8.throw", r"throw\s+std::(\w+)\(([^;]*)\);", "{ g_thrown = 1; return; }", b, expect=1)
+    # the function states its precondition as an assert: assumed (the harness leaves the refinement radius otherwise free)
+    b = rules.sub("R8b.precondition", r"assert\(percentage >= 0\.0 && percentage <= 1\.0\);", "__CPROVER_assume(percentage >= 0.0 && percentage <= 1.0);", b, expect=1)
+    b = common_body_rewrites(b, rules, "I")
+    b, n = units.wrap_subscripts(b, ["r_temp2"], "%.0sACHK2(%s)")
+    b = b.replace("r_temp2[ACHK2(ACHK(", "r_temp2[(ACHK(")
+    b = b.replace("ACHK2(", "ACHK(")
+    if re.search(r"std::|\bitr\b", b):
+        raise ExtractError("unhandled construct in the window computation: %s" % re.search(r"std::\w+|\bitr\b", b).group(0))
+    nmax = 2 ** nr_exp + 2
+    c = [ANISO_PRELUDE.replace("@CAP@", str(nmax + 2))]
+    c.append("static void RadialAnisotropicDivision_window(const double R0, const double R, const int nr_exp, const double refinement_radius, const int anisotropic_factor)\n{%s}\n" % b)
+    h = ["void harness(void) {", "  const double R0 = nondet_double(), R = nondet_double(), refinement_radius = nondet_double();",
+         "  __CPROVER_assume(R0 >= 1e-6 && R0 <= 10.0 && R > R0 && R <= 100.0 && R - R0 >= 1e-3);",
+         "  __CPROVER_assume(refinement_radius >= -1000.0 && refinement_radius <= 1000.0);   /* finite; the function's own precondition (percentage in [0, 1]) is assumed inside */",
+         "  g_thrown = 0;",
+         "  RadialAnisotropicDivision_window(R0, R, %d, refinement_radius, %d);" % (nr_exp, aniso),
+         "  __CPROVER_assert(0, \"COVER:reached_end\");", "}"]
+    j = Job("gridgen.anisotropic_window[nr_exp=%d,anisotropic_factor=%d]" % (nr_exp, aniso), "\n".join(c + h), "P", unwind=nmax + 4, timeout=900,
+            bounded="unwind %d; nr_exp=%d, anisotropic_factor=%d fixed; R0 < refinement radius < Rmax symbolic doubles (IEEE)" % (nmax + 4, nr_exp, aniso),
+            functions=["PolarGrid::RadialAnisotropicDivision (window computation and first read loop; the std::set refinement is not decided)"],
+            covers={"COVER:reached_end"}, split=r".", split_chunk=1, split_timeout=600,     # every property on its own, sliced: the data path drops out
+            extra=["--conversion-check"])
+    j.rules, j.hashes = rules, hashes
+    return j
+
+
 def configs(tier):
     q = [(a, b, d) for a in (1, 2, 3, 4) for b in (-1, 2, 3, 4) for d in (0, 1, 2) if (a - 1) + d <= 4 and (b if b >= 0 else a + 1) + d <= 6]
     if tier != "quick":
@@ -207,14 +271,49 @@ def configs(tier):
     return q
 
 
+def aniso_replay_cb(job, key, label, rec):
+    """SAT counterexample (doubles R0, R, refinement radius) -> the real constructor under ASan + UBSan (native/replay_aniso.cpp)"""
+    import vlib, os, glob, tempfile, shutil, subprocess
+    m = re.search(r"nr_exp=(\d+),anisotropic_factor=(\d+)", job.name)
+    v = vlib.last_values(rec)
+    try:
+        args = [repr(float(v["R0"])), repr(float(v["R"])), repr(float(v["refinement_radius"])), m.group(1), m.group(2)]
+    except (KeyError, ValueError, AttributeError) as e:
+        return {"status": "not-attempted", "detail": "counterexample values not recoverable: %r" % (e,)}
+    w = tempfile.mkdtemp(prefix="gmgverif-aniso-")
+    try:
+        exe = os.path.join(w, "replay_aniso")
+        srcs = sorted(glob.glob(os.path.join(vlib.REPO, "src/PolarGrid/*.cpp")))
+        c = subprocess.run(["clang++", "-std=c++20", "-O1", "-g", "-DNDEBUG", "-fopenmp", "-fsanitize=address,undefined,float-cast-overflow",
+                            "-fno-sanitize-recover=undefined", "-Wno-everything", "-I" + os.path.join(vlib.REPO, "include"),
+                            os.path.join(vlib.VERIF, "native", "replay_aniso.cpp")] + srcs + ["-o", exe], capture_output=True, text=True, timeout=600)
+        if c.returncode != 0:
+            return {"status": "error", "detail": "replay driver did not compile: " + c.stderr[-600:]}
+        p = subprocess.run([exe] + args, capture_output=True, text=True, timeout=120, env=dict(os.environ, OMP_WAIT_POLICY="passive"))
+        out = (p.stdout + p.stderr)
+        bad = p.returncode != 0 or "ERROR: AddressSanitizer" in out or "runtime error" in out
+        key_lines = [l for l in out.splitlines() if re.search(r"ERROR: AddressSanitizer|runtime error|READ of|WRITE of|constructed|exception", l)]
+        return {"status": "reproduced" if bad else "not-reproduced", "command": "replay_aniso " + " ".join(args), "detail": "\n".join(key_lines[:6])[:1500]}
+    except subprocess.TimeoutExpired:
+        return {"status": "error", "detail": "native replay timed out"}
+    finally:
+        shutil.rmtree(w, ignore_errors=True)
+
+
 def replay_cb(job, key, label, rec):
     """exponents of the job -> the real generating constructor and coarseningGrid (native/replay_gridgen.cpp)"""
     import vlib
+    if "anisotropic_window" in job.name:
+        return aniso_replay_cb(job, key, label, rec)
     m = re.search(r"nr_exp=(-?\d+),ntheta_exp=(-?\d+),divideBy2=(\d+)", job.name)
     if not m:
         return None
     return vlib.native_driver("replay_gridgen", [int(m.group(1)), int(m.group(2)), int(m.group(3))])
 
 
-def build_jobs(tier, seed):
-    return [job_for(*cfg) for cfg in configs(tier)]
+def aniso_configs(tier):
+    return [(4, 2), (5, 1), (3, 1)] if tier == "quick" else [(4, 2), (5, 1), (3, 1), (5, 3), (6, 2), (4, 3), (3, 2)]
+
+
+def build_jobs(tier, seed, anisotropic=False):
+    return [job_for(*cfg) for cfg in configs(tier)] + ([aniso_job(*cfg) for cfg in aniso_configs(tier)] if anisotropic else [])
